@@ -201,7 +201,7 @@ impl HistScenario {
 /// `position <start> moves <history with repetitions>`, then clock-limited `go`s cut at the
 /// given reads. The engine's record of the game must be what it was: same length, and the
 /// same repetition verdict for every legal successor of the current position.
-pub fn run_history(sc: &HistScenario, gen: &engine::move_gen::MoveGenerator) -> ScenarioOutcome {
+pub fn run_history(sc: &HistScenario, reference: &mut Reference) -> ScenarioOutcome {
     use crate::usession::*;
     let mut out = ScenarioOutcome::default();
     let mut st = SimState::new(sc.key_seed, 0);
@@ -219,7 +219,7 @@ pub fn run_history(sc: &HistScenario, gen: &engine::move_gen::MoveGenerator) -> 
         return out;
     }
     let root = sess.board();
-    let succ: Vec<(String, engine::board::Board)> = gen.generate_moves(&root).iter().map(|m| (m.to_algebraic(), root.clone_with_move(m))).collect();
+    let succ: Vec<(String, engine::board::Board)> = reference.gen.generate_moves(&root).iter().map(|m| (m.to_algebraic(), root.clone_with_move(m))).collect();
     let snapshot = |sess: &mut StepSession| -> Option<(usize, Vec<bool>)> {
         let fl = sess.fl.as_mut().unwrap();
         let (o, r) = sess.proc_.run(|| {
@@ -283,6 +283,86 @@ pub fn run_history(sc: &HistScenario, gen: &engine::move_gen::MoveGenerator) -> 
             break;
         }
     }
+    // and a completed search afterwards still concludes what the history implies: depth 1,
+    // every move that brings a position about for the third time is worth 0, every other
+    // move minus the quiescence value of its successor (the reference of C09)
+    if out.violations.is_empty() && out.skipped.is_none() {
+        if let Some((_, hist)) = interpret_position(&sc.position_line) {
+            let last = hist.last().unwrap().clone();
+            let mut rec: std::collections::HashMap<crate::rules::Key, usize> = std::collections::HashMap::new();
+            let mut fide: std::collections::HashMap<crate::rules::Key, usize> = std::collections::HashMap::new();
+            for p in &hist {
+                *rec.entry(p.key()).or_insert(0) += 1;
+                *fide.entry(p.fide_key()).or_insert(0) += 1;
+            }
+            let mut vals: Vec<(String, i32)> = vec![];
+            let mut ok = true;
+            for m in last.legal_moves() {
+                let sp = last.make(&m);
+                let (a, b) = (rec.get(&sp.key()).copied().unwrap_or(0), fide.get(&sp.fide_key()).copied().unwrap_or(0));
+                if (a >= 2) != (b >= 2) {
+                    ok = false; // the two readings of "same position" disagree: not judged
+                    break;
+                }
+                let v = if a >= 2 {
+                    0
+                } else {
+                    match succ.iter().find(|(u, _)| *u == m.uci()) {
+                        Some((_, sb)) => match reference.q(sb) {
+                            Ok(q) => -q,
+                            Err(_) => {
+                                ok = false;
+                                break;
+                            }
+                        },
+                        None => {
+                            ok = false;
+                            break;
+                        }
+                    }
+                };
+                vals.push((m.uci(), v));
+            }
+            if ok && !vals.is_empty() {
+                let best = vals.iter().map(|x| x.1).max().unwrap();
+                let out0 = sess.out_len();
+                let o = sess.cmd("go depth 1");
+                if o == Outcome::Returned {
+                    let lines = sess.out_since(out0);
+                    let score = lines.iter().find(|l| l.starts_with("info depth 1 ")).and_then(|l| {
+                        let t: Vec<&str> = l.split_whitespace().collect();
+                        t.iter().position(|&x| x == "cp").and_then(|i| t.get(i + 1)).and_then(|s| s.parse::<i32>().ok())
+                    });
+                    let bm = lines.iter().find(|l| l.starts_with("bestmove ")).and_then(|l| l.split_whitespace().nth(1).map(|s| s.to_string()));
+                    // an interrupted go may have completed several iterations before it was cut;
+                    // if this depth-1 search was answered from one of their deeper results, its
+                    // value is that of a deeper search and the depth-1 reference does not apply
+                    let deeper = sess.proc_.st.borrow().searches.last().map(|s| s.tt_hits_deeper).unwrap_or(0);
+                    if deeper > 0 {
+                        out.probes.add("history_final_searches_skipped_deeper_result_reused", 1);
+                        let st = sess.proc_.st.borrow();
+                        out.log_hash = st.log_hash;
+                        out.faults.add("forced_expiry", st.faults.forced_expiry);
+                        return out;
+                    }
+                    out.probes.add("history_final_searches_compared", 1);
+                    if rec.get(&last.key()).copied().unwrap_or(0) >= 2 {
+                        out.probes.add("history_final_search_root_occurred_before", 1);
+                    }
+                    match (score, bm) {
+                        (Some(sv), Some(mv)) => {
+                            if norm(sv) != best {
+                                out.violations.push(("final_value_wrong".into(), format!("after '{}' and go(s) cut at clock reads {:?}: go depth 1 reports {} but the reference with the game-history rule gives {}", shorten(&sc.position_line), sc.expiries, sv, best)));
+                            } else if vals.iter().find(|(u, _)| *u == mv).map(|x| x.1) != Some(best) {
+                                out.violations.push(("final_move_not_attaining".into(), format!("after '{}' and go(s) cut at clock reads {:?}: bestmove {} does not attain the reported value {}", shorten(&sc.position_line), sc.expiries, mv, best)));
+                            }
+                        }
+                        _ => out.violations.push(("final_value_wrong".into(), format!("after '{}' and go(s) cut at clock reads {:?}: go depth 1 printed {:?}", shorten(&sc.position_line), sc.expiries, lines))),
+                    }
+                }
+            }
+        }
+    }
     let st = sess.proc_.st.borrow();
     out.log_hash = st.log_hash;
     out.faults.add("forced_expiry", st.faults.forced_expiry);
@@ -324,12 +404,15 @@ pub fn gen_history_scenario(rng: &mut Rng) -> HistScenario {
         line.push_str(&crate::gen::moves_uci(&moves).join(" "));
     }
     let n = rng.range(1, 3);
-    HistScenario { position_line: line, key_seed: rng.next_u64(), expiries: (0..n).map(|_| rng.log_range(1, 4000)).collect() }
+    // half of the sessions are cut inside the first iteration (nothing deeper than the final
+    // depth-1 search gets cached, so its value can be judged)
+    let early = rng.chance(1, 2);
+    HistScenario { position_line: line, key_seed: rng.next_u64(), expiries: (0..n).map(|_| if early { rng.range(1, 30) } else { rng.log_range(1, 4000) }).collect() }
 }
 
 pub fn replay_value(v: &Value) -> Vec<Violation> {
     if let Some(h) = HistScenario::from_json(v) {
-        let o = with_bench(|b| run_history(&h, &b.reference.gen));
+        let o = with_bench(|b| run_history(&h, &mut b.reference));
         return o
             .violations
             .into_iter()
@@ -612,7 +695,7 @@ pub fn run(ctx: &Ctx) -> i32 {
             };
             for _ in 0..nh {
                 let h = gen_history_scenario(&mut rng);
-                let o = run_history(&h, &bench.reference.gen);
+                let o = run_history(&h, &mut bench.reference);
                 res.evaluations += 1;
                 log_hash = fnv1a(log_hash, &o.log_hash.to_le_bytes());
                 res.probes.merge(&o.probes);
@@ -635,7 +718,7 @@ pub fn run(ctx: &Ctx) -> i32 {
     });
     let ev = Evidence {
         level: "fault_enumeration",
-        rule: "Positions from seeded playouts of the rules model (kept when the unpruned reference fits its node budget), depth 1..3. Crash point = index j of the clock read at which the deadline first reads expired (forced-expiry clock). Quick: j in 1..32, every iteration boundary +-4, 64 seeded j per position; thorough: every j in 1..R for positions with R<=6000 reads (exhaustive in the crash-point dimension for that position) else 400 seeded j; plus sequences of 2-3 interruptions, other key sets, and really fresh engines. After each interrupted search: history length unchanged and every cached claim about a position of the tree (interior nodes; horizon positions too, should the engine cache them) audited against the reference; then a completed search must report M and a move attaining it. Besides, per position a few World-U sessions: `position <start> moves <history with planted repetitions>` followed by 1-3 `go movetime` cut at seeded clock reads; after each, the engine's game record must have the same length and give the same repetition verdict for every legal successor as before the search. A case = (position, depth, expiry sequence) or (position command, expiry sequence); all are non-trivial.".into(),
+        rule: "Positions from seeded playouts of the rules model (kept when the unpruned reference fits its node budget), depth 1..3. Crash point = index j of the clock read at which the deadline first reads expired (forced-expiry clock). Quick: j in 1..32, every iteration boundary +-4, 64 seeded j per position; thorough: every j in 1..R for positions with R<=6000 reads (exhaustive in the crash-point dimension for that position) else 400 seeded j; plus sequences of 2-3 interruptions, other key sets, and really fresh engines. After each interrupted search: history length unchanged and every cached claim about a position of the tree (interior nodes; horizon positions too, should the engine cache them) audited against the reference; then a completed search must report M and a move attaining it. Besides, per position a few World-U sessions: `position <start> moves <history with planted repetitions>` followed by 1-3 `go movetime` cut at seeded clock reads; after each, the engine's game record must have the same length and give the same repetition verdict for every legal successor as before the search, and a final `go depth 1` must report the value the history implies (third occurrences worth 0) with a move attaining it, unless it was answered from a deeper result cached by a completed iteration of an interrupted go (instrumented, counted). A case = (position, depth, expiry sequence) or (position command, expiry sequence); all are non-trivial.".into(),
         extra: serde_json::Map::new(),
         assumptions: vec![
             "reference M takes the engine's move generator, make_move, static evaluation and full-window quiescence as given".into(),
